@@ -58,7 +58,7 @@ BASIC = {
         dict(name="Many", base="ASTNode", fields=[
             C("items", "tuple", ["ASTNode"], "tuple[ASTNode, ...]"),
             C("head", "opt", ["Leaf"], "Leaf | None", default="None"),
-            P("ninit", "int", "int", default="7", init=False),
+            P("ninit", "int", "fixed7", default="7", init=False),
         ]),
         dict(name="SubMany", base="Many", fields=[
             C("extra", "tuple", ["Leaf"], "tuple[Leaf, ...]", default="()"),
@@ -311,6 +311,26 @@ def render_tla(zoo: dict, module: str = "Zoo", classes: list[str] | None = None)
         return _tla_set(_tla_str(x) for x in zi.allowed_classes(f) if x in order)
     L.append("Allowed == " + _tla_rec(
         (c, _tla_rec((f["n"], allowed(c, f)) for f in zi.fields(c))) for c in order))
+    # property pools (plain pool set): str() of every atom as a sequence of characters, and a type tag --
+    # what pattern regexes / variables see (C08)
+    from . import pools as _P
+
+    def chars(x):
+        out = []
+        for ch in str(x):
+            out.append('"\\\\"' if ch == "\\" else '"\\""' if ch == '"' else '"' + ch + '"')
+        return _tla_seq(out)
+
+    def ttag(x):
+        return _tla_str("none" if x is None else type(x).__name__)
+    used = sorted({f["pool"] for c in order for f in zi.prop_fields(c)})
+    simple = [pl for pl in used if all(isinstance(x, (str, int, type(None))) and str(x).isprintable() and str(x).isascii()
+                                       for x in _P.POOLSETS["plain"][pl][:3])]
+    L.append("PoolOf == " + _tla_rec(
+        (c, _tla_rec((f["n"], _tla_str(f["pool"])) for f in zi.prop_fields(c))) for c in order))
+    L.append("SimplePools == " + _tla_set(_tla_str(pl) for pl in simple))
+    L.append("PoolStr == " + _tla_rec((pl, _tla_seq(chars(x) for x in _P.POOLSETS["plain"][pl][:3])) for pl in simple))
+    L.append("PoolType == " + _tla_rec((pl, _tla_seq(ttag(x) for x in _P.POOLSETS["plain"][pl][:3])) for pl in simple))
     L.append("====")
     return "\n".join(L) + "\n"
 
